@@ -6,6 +6,7 @@ import Hive.Model.DerivedVar
 import Hive.Model.DerivedLocks
 import Hive.Spec.Derived
 import Hive.Model.DerivedVarSeq
+import Hive.Gen.C14_Facts
 /-! # Line protocol of the C14 driver: one construct per case, selected by the first token. -/
 namespace Hive.Derived
 open Hive.Proto Hive.Conc
@@ -64,10 +65,31 @@ def wgRaceLine (x : Nat) : String :=
   let c := runSched (wgSys true) (wgRaceInit x) wgRaceSched
   s!"pending={showSet (fun y => c.1.pending.contains y)} trig={showBool c.1.trig} finished={showBool (c.2.all (· == WGT.fin))}"
 
+/-- The subscriptions of the constructor of the arity, regenerated from `variable.go`. -/
+def subsOfArity : Nat → List (String × String)
+  | 1 => Hive.Gen.C14Facts.subs_NewDerivedVariable
+  | 2 => Hive.Gen.C14Facts.subs_NewDerivedVariable2
+  | 3 => Hive.Gen.C14Facts.subs_NewDerivedVariable3
+  | _ => Hive.Gen.C14Facts.subs_NewDerivedVariable4
+
+/-- `dvz <fn> <inits> <m> <writes i:v,…>`: the forced schedule "a writer inside the m-th computation of the
+constructor" replayed on the protocol model `dvSys` **with the flags of the code**; the answer is the model's final
+derived value and inputs (what the implementation printed for the same schedule). -/
+def dvzLine (fn inits m writes : String) : String :=
+  match fnEval fn, parseInts inits, m.toNat?, parsePairs writes with
+  | some f, some inits, some m, some writes =>
+    let n := inits.length
+    if n < 1 || n > 4 then "bad-op" else
+    let c := dvzReplay n (fun a => f ((List.range n).map a)) (trigOf (subsOfArity n)) inits m writes
+    let vals := (List.range n).map c.1.val
+    s!"d={c.1.d} in={Hive.Derived.showIntList vals} finished={showBool (c.2.all DVT.finished)}"
+  | _, _, _, _ => "bad-op"
+
 def stepLine (st : DSt) (toks : List String) : DSt × String :=
   match toks with
   | "q" :: rest => (st, qLine rest)
   | "stress" :: _ => (st, "ok")      -- scenario descriptor of a stress case (its `q` lines follow)
+  | ["dvz", fn, inits, m, writes] => (st, dvzLine fn inits m writes)
   | "ds" :: rest =>
     let s := match st with | .ds s => s | _ => DS.init
     let r := s.stepLine rest; (.ds r.1, r.2)
